@@ -57,10 +57,19 @@ pub struct DagSpec {
     pub conj: Vec<bool>,
     pub fan: Vec<(u8, u8)>,
     pub own_codepoints_every: u8,
+    /// when > 0 the entry count (up to 40 000): long child chains (recursion depth = chain length unless the walk is iterative)
+    #[serde(default)]
+    pub n_big: u16,
+    /// cycled over entries k >= 2: the entry carries the IGNORED flag (it is skipped by the selection loop but still reachable
+    /// as somebody's child); `ignored_but_last`: every entry except the last few is ignored
+    #[serde(default)]
+    pub ignored: Vec<bool>,
+    #[serde(default)]
+    pub ignored_but_last: u8,
 }
 
 pub fn dag_map(d: &DagSpec) -> Vec<u8> {
-    let n = (d.n as usize).clamp(2, 200);
+    let n = if d.n_big > 0 { (d.n_big as usize).clamp(2, 40_000) } else { (d.n as usize).clamp(2, 200) };
     let mut v = vec![2u8, 0, 0, 0, 0];
     for c in [1u32, 2, 3, 4] {
         v.extend_from_slice(&c.to_be_bytes());
@@ -84,7 +93,8 @@ pub fn dag_map(d: &DagSpec) -> Vec<u8> {
             continue;
         }
         let own = d.own_codepoints_every > 0 && k % d.own_codepoints_every as usize == 0;
-        v.push(0b0000_0010 | if own { 0b0010_0000 } else { 0 });
+        let ign = (!d.ignored.is_empty() && d.ignored[k % d.ignored.len()]) || (d.ignored_but_last > 0 && k + (d.ignored_but_last as usize) < n);
+        v.push(0b0000_0010 | if own { 0b0010_0000 } else { 0 } | if ign { 0b0100_0000 } else { 0 });
         let (a, b) = if d.fan.is_empty() { (0, 1) } else { d.fan[k % d.fan.len()] };
         let c1 = (k - 1).saturating_sub(a as usize % 3);
         let c2 = (k - 1).saturating_sub(1 + b as usize % 3);
